@@ -25,7 +25,7 @@ META = {
 LEVEL = META['level']
 RULE = ('a case = one hostile connection (valid prefix + hostile bytes + EOF) judged by all monitors; distinct by the hostile bytes; non-trivial = the input is not a valid unmodified frame sequence')
 ASSUMPTIONS = ['step budget = 50 x (worst steps per byte over valid frames) x input length + 20000', 'a write is "acknowledged" by a status-0 reply of service 0xCD / 0xD3 / 0x90, alone or inside an 0x8A bundle reply']
-REQUIRED = ['class:consistent-truncation', 'live:connection-reset', 'inputs', 'class:random-bytes', 'class:bitflip', 'class:span-edit', 'class:truncated', 'class:length-field', 'class:bundle-offsets', 'class:sequence',
+REQUIRED = ['class:consistent-truncation', 'live:burst', 'live:connection-reset', 'inputs', 'class:random-bytes', 'class:bitflip', 'class:span-edit', 'class:truncated', 'class:length-field', 'class:bundle-offsets', 'class:sequence',
             'end:error', 'end:closed-by-server', 'end:eof', 'monitor:step-budget', 'monitor:state-oracle', 'monitor:canary-long-lived', 'monitor:canary-fresh',
             'live:inputs', 'live:listener-accepts', 'live:thread-count-stable', 'state-changed-with-acknowledged-write']
 TIMEOUT = {'quick': 300, 'thorough': 2400}
@@ -462,6 +462,102 @@ def in_process(ctx, rng, budget_s):
         sim.close()
 
 
+def burst(ctx, rng, sim, long_lived, known, size):
+    """`size` registered connections receive hostile input at the same moment and all end together: the connections fail
+    individually, the listener and the other sessions carry on.  -> the new known value of H, or None after a violation"""
+    from vlib import simdrv, refcodec as rc
+    frames = valid_frames(rng, 77)
+    mode = rng.choice(['random-bytes', 'mutated', 'same-mutation'])
+    same = mutate(rng, rng.choice(frames))
+    socks, hostiles = [], []
+    wit = {'class': 'burst:' + mode, 'burst': size}
+    before = sim.state()
+    try:
+        for _ in range(size):
+            s = socket.create_connection(sim.address, timeout=5)
+            s.sendall(rc.register_frame())
+            hdr = b''
+            while len(hdr) < 28:
+                c = s.recv(28 - len(hdr))
+                if not c:
+                    break
+                hdr += c
+            if len(hdr) < 28:
+                ctx.violation('listener-stopped-accepting', 'live: connection %d of a burst of %d idle connections was not registered' % (len(socks), size), wit)
+                return None
+            socks.append(s)
+            if mode == 'random-bytes':
+                hostiles.append(bytes(rng.randrange(256) for _ in range(rng.choice([24, 30, 300]))))
+            elif mode == 'mutated':
+                hostiles.append(mutate(rng, rng.choice(frames))[1])
+            else:
+                hostiles.append(same[1])
+        wit['hostile'] = hostiles[0][:2000]
+        wit['hostiles'] = [h[:400] for h in hostiles]
+        for s, h in zip(socks, hostiles):           # all at once: nothing is read in between
+            try:
+                s.sendall(h)
+                s.shutdown(socket.SHUT_WR)
+            except OSError:
+                pass
+        gots = []
+        for s in socks:
+            got = b''
+            s.settimeout(10)
+            try:
+                while True:
+                    c = s.recv(65536)
+                    if not c:
+                        break
+                    got += c
+            except socket.timeout:
+                ctx.inconclusive_because('live server did not close a hostile connection of a burst within 10 s (wall-clock guard)')
+                return None
+            except OSError:
+                pass
+            gots.append(got)
+    finally:
+        for s in socks:
+            s.close()
+    ctx.count('live:burst')
+    ctx.count('live:burst-connections', size)
+    ctx.case(('burst', mode, size, hostiles[0]))
+    after = sim.state()
+    if after != before:
+        if not any(acknowledged_write(rc.split_frames(g)[0]) for g in gots):
+            ctx.violation('tag-changed-without-acknowledged-write', 'live: a burst of %d %s inputs changed tags without an acknowledged write' % (size, mode), wit)
+            return None
+        known = list(after['H'])
+    time.sleep(0.25)            # let the accept loop make a tidy pass over the ended connections
+    rq = rc.enc_request({'path': {'segment': [{'symbolic': 'H'}]}, 'read_tag': {'elements': 8}})
+    fr = long_lived.rr(rq)
+    if fr is None or fr['status'] != 0 or rc.dec_reply(fr['cip'])['read_tag']['data'] != known:
+        ctx.violation('other-session-disturbed-by-hostile-input', 'live: long-lived session after a burst of %d %s inputs: %r' % (size, mode, fr and fr['status']), wit)
+        return None
+    if not sim.thread.is_alive():
+        ctx.violation('server-went-down', 'live: the server thread died after %d connections failed together (%s)' % (size, mode), wit)
+        return None
+    try:
+        fresh = simdrv.RawClient(sim.address)
+        fresh.register()
+        fr = fresh.rr(rq)
+        fresh.close()
+    except Exception as exc:
+        ctx.violation('listener-stopped-accepting', 'live: new connection after a burst of %d %s inputs failed: %r' % (size, mode, exc), wit)
+        return None
+    if fr is None or fr['status'] != 0 or rc.dec_reply(fr['cip'])['read_tag']['data'] != known:
+        ctx.violation('other-session-disturbed-by-hostile-input', 'live: fresh session after a burst of %d %s inputs got a wrong answer' % (size, mode), wit)
+        return None
+    for _ in range(1000):       # 10 s: a watchdog for "never", not a performance requirement
+        if sim.connections() <= 1:
+            break
+        time.sleep(0.01)
+    if sim.connections() > 1:
+        ctx.violation('connection-table-leak', 'live: %d connection entries remain after a burst (baseline 1)' % sim.connections(), wit)
+        return None
+    return known
+
+
 def live(ctx, rng, n):
     from vlib import simdrv, reqgen, refcodec as rc
     sim = simdrv.TcpSim(reqgen.argv_of(CFG))
@@ -471,6 +567,10 @@ def live(ctx, rng, n):
         known = [5, 6, 7, 8, 9, 10, 11, 12]
         sim.attributes()['H'][0:8] = list(known)
         base_threads = None
+        for size in ([3, 12, 40] if ctx.tier == 'quick' else [2, 5, 11, 12, 25, 40, 80, 150]):
+            known = burst(ctx, rng, sim, long_lived, known, size)
+            if known is None:
+                return
         for k in range(n):
             if ctx.expired():
                 break
